@@ -439,6 +439,8 @@ func c17Gen(g *G) {
 	// two clients in one process, then the decisions of tryToProcessErr through the whole request path
 	// (MakeRequest against scripted peers)
 	c17TwoGen(g, code)
+	// identity of the errors handed out: sequences of replies with every earlier error held (c17ident.go)
+	c17IdentGen(g)
 	c17HistGen(g, code)
 	c17MigGen(g, code)
 	c17CallGen(g, code)
@@ -645,6 +647,9 @@ func c17Exec(op []string) string {
 	if out, ok := c17MigExec(op); ok {
 		return out
 	}
+	if out, ok := c17IdentExec(op); ok {
+		return out
+	}
 	unhex := func(s string) []byte {
 		if s == "-" {
 			return nil
@@ -722,6 +727,9 @@ func c17Judge(op []string, out string) string {
 	c17LoadFacts()
 	if len(op) < 2 {
 		return ""
+	}
+	if op[0] == "c17.ident" || op[0] == "c17.callers" {
+		return c17IdentJudge(op, out)
 	}
 	if (op[0] == "c17.req" && len(op) == 4) || (op[0] == "c17.hist" && len(op) == 5) || ((op[0] == "c17.req2" || op[0] == "c17.two" || op[0] == "c17.call") && len(op) == 6) ||
 		(op[0] == "c17.home" && len(op) == 3) {
